@@ -44,13 +44,21 @@ def passed_value(P, call, kw):
         params = list(fi.params)
         if kw in params:
             i = params.index(kw)
-            if fi.cls is not None and call[1][0] == 'attr' and params and params[0] in ('self', 'cls'):
+            # (a method call binds the receiver: also for module-level functions installed as methods, whose first parameter is `self`)
+            if call[1][0] == 'attr' and params and params[0] in ('self', 'cls'):
                 i -= 1
             idxs.add(i)
     if len(idxs) == 1:
         i = idxs.pop()
-        if 0 <= i < len(call[2]) and not any(a[0] == 'star' for a in call[2][:i + 1]):
-            return call[2][i], 'positional'
+        # (`f(a, *rest)` with rest a known tuple of values - a helper's own *args handed on - reads like f(a, r0, r1, ...))
+        pos = []
+        for a in call[2]:
+            if a[0] == 'star' and a[1][0] in ('tuple', 'list'):
+                pos.extend(a[1][1])
+            else:
+                pos.append(a)
+        if 0 <= i < len(pos) and not any(a[0] == 'star' for a in pos[:i + 1]):
+            return pos[i], 'positional'
     return None, 'absent'
 
 
